@@ -88,7 +88,11 @@ theorem step_shrink_withoutShrink_fits (cfg : Cfg) (g : GState) (b : Nat) (blk :
     shrinkWithoutShrink_fits cfg g.s blk.addr blk.size L hfit]
   rfl
 
-/-- TARGET (not proved): with `SHRINKS = false` / `WithoutShrink` a shrink whose alignment does NOT fit
+/-- RESOLVED — FALSE AS STATED (it quantifies over ill-formed states): `C13.shrink_optout_never_decreases_target_fails`
+    (Props/Targets.lean; witness: a chunk whose position lies past its end) and the corrected statements
+    `C13.shrink_optout_never_decreases_corrected` (states satisfying `GeomInv`) / `…_reachable`; step level:
+    `C13.shrink_optout_reachable` (Props/Hist2.lean).  Original comment:
+    TARGET (not proved): with `SHRINKS = false` / `WithoutShrink` a shrink whose alignment does NOT fit
     allocates a new block; the allocated byte count then grows, it never decreases.  Needs the
     monotonicity of `alloc` on `stats().allocated()` (slow path included), which is part of the
     accounting properties (C02/C03), not of this file. -/
